@@ -1562,6 +1562,28 @@ def gen_shapes2():
         f = ["fn", g.ident("poll"), ["params", [g.ident("c"), ["prim", "bool"]], [g.ident("d"), ["prim", "bool"]]], ["prim", "i32"],
              ["body", loop, ["ret", ["expr", ["prim", ["pv", "i32", 1]]]]]]
         out.append((["program", step, f], {"stream": "shapes", "family": "same-if-twice", "k": k}))
+    # (d) calls whose (function name, argument types / position) keys collide when glued together
+    #     without a separator: a valid call in one body, the colliding ill-typed one in another
+    lit = lambda t, v: ["expr", ["prim", ["pv", t, v]]]
+    one = ["ret", lit("i32", 1)]
+    for k in range(2):
+        g = Gen(0)
+        if k == 0:
+            fa = ["fn", g.ident("conv"), ["params", [g.ident("a"), ["prim", "i8"]], [g.ident("b"), ["prim", "i16"]]], ["prim", "i32"], ["body", one]]
+            fb = ["fn", g.ident("convi8"), ["params", [g.ident("a"), ["prim", "i32"]]], ["prim", "i32"], ["body", one]]
+            good = ["call", g.ident("conv"), lit("i8", 1), lit("i16", 2)]
+            bad = ["call", g.ident("convi8"), lit("i16", 2)]
+        else:
+            ps = [[g.ident("p%d" % i), ["prim", "i32"]] for i in range(11)]
+            fa = ["fn", g.ident("f"), ["params"] + ps, ["prim", "i32"], ["body", one]]
+            fb = ["fn", g.ident("f1"), ["params", [g.ident("a"), ["prim", "u8"]]], ["prim", "i32"], ["body", one]]
+            good = ["call", g.ident("f1"), lit("u8", 4)]
+            bad = ["call", g.ident("f")] + [lit("i32", i) for i in range(10)] + [lit("u8", 4)]
+        first = ["fn", g.ident("first"), ["params"], ["prim", "i32"], ["body", good, one]]
+        user = ["fn", g.ident("user"), ["params"], ["prim", "i32"], ["body", bad, one]]
+        for order in (0, 1):
+            fns = [fa, fb, first, user] if order == 0 else [fa, fb, user, first]
+            out.append((["program"] + fns, {"stream": "shapes", "family": "call-key-collision", "k": k, "order": order}))
     return out
 
 
@@ -1621,6 +1643,57 @@ def gen_data():
                 body = [st] if where == "fn" else [["loop", st, ["break"]]]
                 f = ["fn", g.ident("f"), ["params", [g.ident("c"), ["prim", "bool"]]], ["prim", "i32"], ["body"] + body + [one(g)]]
                 out.append((["program", f], {"stream": "data", "family": "literal-condition", "lit": lit, "where": where, "shape": shape}))
+    # odd spellings of a value name (round 17: `_` treated as a discard placeholder): the same two
+    # programs for every spelling; a name is just a string
+    lit = lambda t, v: ["expr", ["prim", ["pv", t, v]]]
+    for sp in ["_", "__", "_x", "self", "if_begin", "loop_end.0", "x.0", "0", "", "fn", "true", "u8"]:
+        g = Gen(0)
+        nm = lambda: ["expr", ["name", g.ident(sp)]]
+        inner = ["if", ["ifs", ["single", ["expr", ["name", g.ident("c")]]],
+                        ["ifbody", ["let", g.ident(sp), 0, ["noty"], lit("u64", 7)], ["bind", g.ident("m"), nm()]], ["noelse"], ["noelif"]]]
+        body = [["let", g.ident(sp), 0, ["noty"], lit("u64", 5)], ["let", g.ident("m"), 1, ["noty"], nm()], inner, ["ret", nm()]]
+        f = ["fn", g.ident("f"), ["params", [g.ident(sp), ["prim", "u64"]], [g.ident("c"), ["prim", "bool"]]], ["prim", "u64"], ["body"] + body]
+        out.append((["program", f], {"stream": "data", "family": "spelling", "name": sp, "k": 0}))
+        g = Gen(0)
+        nm = lambda: ["expr", ["name", g.ident(sp)]]
+        cst = ["const", g.ident(sp), ["prim", "u64"], ["cexpr", ["cval", ["pv", "u64", 1]]]]
+        loop = ["loop", ["let", g.ident(sp), 0, ["noty"], lit("u64", 6)], ["let", g.ident("b"), 0, ["noty"], nm()], ["break"]]
+        body = [["let", g.ident("a"), 0, ["noty"], nm()], ["let", g.ident(sp), 1, ["noty"], lit("u64", 5)], loop,
+                ["bind", g.ident(sp), lit("u64", 9)], ["ret", nm()]]
+        f = ["fn", g.ident("f"), ["params"], ["prim", "u64"], ["body"] + body]
+        out.append((["program", cst, f], {"stream": "data", "family": "spelling", "name": sp, "k": 1}))
+    # a struct declared under a primitive's spelling: a field read on a value of the PRIMITIVE is
+    # still a read on a non-struct; on a value of the struct it is fine
+    for pt, v in (("bool", 1), ("u8", 3), ("i32", 3), ("char", 65), ("f64", 0)):
+        for k in range(2):
+            g = Gen(0)
+            st = ("u", pt, [("flag", ("p", pt))])
+            decl = ["struct", g.ident(pt), ["attr", g.ident("flag"), ["prim", pt]]]
+            if k == 0:
+                body = [["let", g.ident("x"), 0, ["noty"], lit(pt, v)], ["ret", ["expr", ["field", g.ident("x"), g.ident("flag")]]]]
+                f = ["fn", g.ident("f"), ["params"], ["prim", pt], ["body"] + body]
+            else:
+                body = [["let", g.ident("x"), 0, ["ty", ["prim", pt]], lit(pt, v)], ["ret", ["expr", ["field", g.ident("p"), g.ident("flag")]]]]
+                f = ["fn", g.ident("f"), ["params", [g.ident("p"), g.ty(st)]], ["prim", pt], ["body"] + body]
+            out.append((["program", decl, f], {"stream": "data", "family": "struct-named-like-primitive", "ty": pt, "k": k}))
+    # equal extension leaves (same type, same tag) evaluated back to back: as the two operands of an
+    # operator, as neighbouring arguments, as the two sides of a comparison; at depth 0, 1 and 2
+    for depth in (0, 1, 2):
+        for site in ("op", "args", "cmp"):
+            g = Gen(0)
+            e = lambda: ["ext", ["prim", "i32"], 7]
+            two = ["fn", g.ident("two"), ["params", [g.ident("a"), ["prim", "i32"]], [g.ident("b"), ["prim", "i32"]]], ["prim", "i32"],
+                   ["body", ["ret", lit("i32", 1)]]]
+            if site == "op":
+                st = ["let", g.ident("s"), 0, ["noty"], ["expr", e(), ["Plus", e()]]]
+            elif site == "args":
+                st = ["call", g.ident("two"), ["expr", e()], ["expr", e()]]
+            else:
+                st = ["if", ["ifs", ["logic", ["lc", ["expr", e()], "Eq", ["expr", e()]]], ["ifbody"], ["noelse"], ["noelif"]]]
+            for _ in range(depth):
+                st = ["loop", st, ["break"]] if _ % 2 else ["if", ["ifs", ["single", lit("bool", 1)], ["ifbody", st], ["noelse"], ["noelif"]]]
+            f = ["fn", g.ident("f"), ["params"], ["prim", "i32"], ["body", st, ["ret", lit("i32", 1)]]]
+            out.append((["program", two, f], {"stream": "data", "family": "equal-ext-leaves", "depth": depth, "site": site}))
     # concatenated keys
     U = lambda n, attrs: ("u", n, attrs)
     P_ = lambda x: ("p", x)
